@@ -34,6 +34,7 @@ package extension
 //@   modifies Stats.* maps
 
 //@ func (AutomaticPersistedQuery).MutateOperationParameters [C15,C07]
+//@   replay apq.go.tmpl
 //@   requires rawParams != nil
 //@   ghost looked = false
 //@   ghost hit = false
